@@ -8,9 +8,18 @@ from fractions import Fraction
 from ..core import frac
 
 LEVEL = "proof"
-RULE = ("bin tables of 1..6 chromosomes (incl. X/Y) x 1..400 bins, optional centromere-sized gap, zero-weight bins, "
-        "null-coverage bins at the edges and inside, duplicate / Antitarget / '-' names; methods none, haar, hmm, "
-        "hmm-tumor, hmm-germline x skip_low x skip_outliers {0,10} x min_weight {0,0.3} x processes {1,2,3,16}; "
+RULE = ("bin tables of 1..6 chromosomes (incl. X/Y) x 1..400 bins, optional centromere-sized gap (also at the two extreme "
+        "admissible places of by_arm and next to them, exactly 1e5 +- 1 wide, a second hole wider / narrower / equally wide), "
+        "zero-weight bins, weights exactly at min_weight, null-coverage bins at the edges and inside, bins failing only "
+        "one of the two low-coverage tests or sitting at the log2 cut-off (-15, -15.0001, -14.9999), whole arms / small "
+        "chromosomes without a survivor, duplicate / Antitarget / '-' names; methods none, haar, hmm, "
+        "hmm-tumor, hmm-germline x skip_low x skip_outliers {0,3,10} x min_weight {0,0.3} x processes {1,2,3,16, 0 = all CPUs}; "
+        "the table is held (stratified per method) with default / offset / holed (filtered subset of a larger table) / "
+        "permuted pandas labels, in API or .cnr column order or without a depth column (depth = 2**log2), with an extra gc or "
+        "baf column; do_segmentation is called with keywords, all-positional, or with defaults left out; threshold given "
+        "in 30 %; `variants=` (45 % of none/haar, 15 % of HMM cases: SNVs too few (<= 50 per chromosome) or all at 0.5, so "
+        "that the BAF re-segmentation must leave the bin-level segments alone; chromosomes without SNVs, SNVs in holes and "
+        "on a foreign contig); 10 % on a table object that was segmented before; "
         "the real do_segmentation output is checked by the Lean tile checker and compared with the Lean model of the "
         "glue run on the partition read off the reported probes; one case in seven goes through the command line "
         "(`cnvkit.py segment` on a written .cnr: -m METHOD, --drop-low-coverage present/absent, --drop-outliers {absent = 10, 0, 3, 10}, "
@@ -20,6 +29,8 @@ RULE = ("bin tables of 1..6 chromosomes (incl. X/Y) x 1..400 bins, optional cent
         "was split into arms or more than one segment was reported; distinct by hash")
 EXHAUSTIVE = {"quick": False, "thorough": False}
 ASSUMPTIONS = ["input bins sorted, non-overlapping, positive length (a .cnr table)",
+               "`variants`, when given, do not make the BAF re-segmentation split a segment (a split segment counts SNVs, "
+               "not bins, in `probes` and breaks between SNVs, not between bins: outside the statement)",
                "the outlier mask of the rolling-quantile filter is taken from the real smoothing code (parameter of the model)",
                "the partition chosen by haar / HMM is read off the real output (cumulative probes): the segmenters are black boxes"]
 TRUSTED_EXTRA = ["pomegranate HMM, haar numerics, savgol smoothing (black boxes: only the partition they return is used)",
@@ -47,12 +58,34 @@ def _table(rng, big):
         if rng.random() < 0.3:
             n = rng.randint(102, 140)  # enough bins for an arm split
         pos = rng.randint(0, 10 ** 5)
-        cm = rng.randint(n // 3, max(n // 3, 2 * n // 3)) if (n > 101 and rng.random() < 0.7) else -1
+        cm, cm2 = -1, -1
+        cmgap = rng.randint(120000, 3 * 10 ** 6)
+        if n > 101 and rng.random() < 0.7:
+            cm = rng.randint(n // 3, max(n // 3, 2 * n // 3))
+            if rng.random() < 0.35:
+                # the first bin of the q arm must lie in [margin + 1, n - margin - 1] (margin 50 up to 504 bins):
+                # the two extreme admissible places and their inadmissible neighbours
+                cm = rng.choice([50, 51, n - 51, n - 50])
+            if rng.random() < 0.2:
+                cmgap = rng.choice([99999, 100000, 100001])  # the hole must be at least 1e5 wide
+            if rng.random() < 0.2:
+                cm2 = rng.randint(40, n - 40)  # a second large hole: wider, narrower or exactly as wide (first one wins)
+        cmgap2 = rng.choice([cmgap, cmgap, cmgap - rng.randint(1, 50000), cmgap + rng.randint(1, 50000)])
+        # a whole chromosome (few bins) or a whole arm without a single surviving bin under skip_low / the weight filter
+        dead = (0, 0)
+        if rng.random() < 0.12:
+            if cm > 0 and rng.random() < 0.8:
+                dead = (0, cm) if rng.random() < 0.5 else (cm, n)
+            elif n <= 8:
+                dead = (0, n)
+        dead_kind = rng.choice(["null", "null", "w0"])
         level = 0.0
         gname = 0
         for i in range(n):
             if i == cm:
-                pos += rng.randint(120000, 3 * 10 ** 6)
+                pos += cmgap
+            elif i == cm2:
+                pos += cmgap2
             elif rng.random() < 0.5:
                 pos += rng.randint(0, 2000)
             if rng.random() < 0.03:
@@ -62,27 +95,80 @@ def _table(rng, big):
                 gname += 1
             g = rng.choice(["G%d" % gname] * 6 + ["Antitarget", "-", "G%d" % max(0, gname - 2)])
             null = rng.random() < (0.06 if not wide else 0.02) or (i in (0, n - 1) and rng.random() < 0.3)
+            if dead[0] <= i < dead[1] and dead_kind == "null":
+                null = True
             lg = -20.0 if null else round(level + rng.gauss(0, 0.08), 4)
             if not null and rng.random() < 0.02:
                 lg = round(level + rng.choice([-4, 4]), 3)  # outlier
             depth = 0.0 if null else round(50 * 2.0 ** lg, 3)
+            if rng.random() < 0.008:
+                # the two tests of drop_low_coverage one at a time, and the cut-off log2 < -15 itself
+                lg, depth = rng.choice([(-15.0, 0.002), (-15.0001, 0.002), (lg if not null else 0.1, 0.0),
+                                        (-20.0, 0.001), (-14.9999, 0.002)])
             w = 0.0 if rng.random() < (0.05 if not wide else 0.015) else round(rng.uniform(0.15, 1.0), 3)
+            if rng.random() < 0.012:
+                w = 0.3  # exactly the min_weight that a third of the cases uses (`<`, not `<=`)
+            if dead[0] <= i < dead[1] and dead_kind == "w0":
+                w = 0.0
             rows.append([c, pos, pos + ln, g, lg, w, depth])
             pos += ln
     return rows
 
 
+def _variants(rng, rows):
+    """SNVs for the `variants=` argument, as [chrom, pos, alt_freq]: never enough to make the BAF re-segmentation
+    split a segment (<= 50 per chromosome, or all of them at 0.5), so the bin-level statement must hold unchanged.
+    Some chromosomes carry none, some SNVs lie in the holes between bins or on a contig the bins do not have."""
+    chroms = list(dict.fromkeys(r[0] for r in rows))
+    kind = rng.choice(["sparse", "sparse", "dense05", "one"])
+    have = [c for c in chroms if rng.random() < 0.65] or [rng.choice(chroms)]
+    out, per = [], {}
+    prev = None
+    for r in rows:
+        if r[0] in have:
+            if kind == "dense05":
+                out.append([r[0], rng.randint(r[1], r[2] - 1), 0.5])
+            elif per.get(r[0], 0) < 50 and rng.random() < 0.25:
+                out.append([r[0], rng.randint(r[1], r[2] - 1), rng.choice([0.5, 0.31, 0.88, 0.5])])
+                per[r[0]] = per.get(r[0], 0) + 1
+            elif per.get(r[0], 0) < 50 and prev is not None and prev[0] == r[0] and r[1] - prev[2] > 1 and rng.random() < 0.3:
+                out.append([r[0], rng.randint(prev[2], r[1] - 1), 0.4])  # in the hole before this bin
+                per[r[0]] = per.get(r[0], 0) + 1
+        prev = r
+    if kind == "one" and out:
+        out = [rng.choice(out)]
+    if rng.random() < 0.3:
+        out.append(["chrUn_zz", 77, 0.5])
+    return out
+
+
 def gen_cases(rng, tier):
-    n = {"quick": 90, "thorough": 900, "search": 150}[tier]
+    n = {"quick": 100, "thorough": 1000, "search": 150}[tier]
     cases = []
     for k in range(n):
         big = rng.random() < 0.3
         rows = _table(rng, big)
         method = METHODS[k % len(METHODS)]
-        cases.append({"op": "segment", "tag": method,
-                      "in": {"bins": rows, "method": method, "skip_low": rng.random() < 0.6,
-                             "skip_outliers": rng.choice([0, 10, 10, 3]), "min_weight": rng.choice([0, 0, 0.3]),
-                             "processes": rng.choice([1, 1, 2, 3, 16])}})
+        i = {"bins": rows, "method": method, "skip_low": rng.random() < 0.6,
+             "skip_outliers": rng.choice([0, 10, 10, 3]), "min_weight": rng.choice([0, 0, 0.3]),
+             "processes": rng.choice([1, 1, 2, 3, 16, 0])}
+        # how the table is held (none of this is visible in the property's prose): pandas labels that are not the
+        # row positions, column order, a table without `depth`, extra columns
+        # (stratified over the rounds of the method cycle, so that every method meets every value in a quick run)
+        rnd = k // len(METHODS)
+        i["index"] = ("default", "holes", "perm", "offset", "holes")[(rnd + k) % 5]
+        i["cols"] = ("api", "fix", "nodepth")[rnd % 3]
+        i["extra"] = rng.choice([None, None, None, "gc", "baf"])
+        # how the function is called: every option by keyword, everything positional, defaults left out
+        i["call"] = ("kw", "pos", "implicit", "implicit")[(rnd + 2 * k) % 4]
+        if rng.random() < 0.3:
+            i["threshold"] = (rng.choice([0.01, 0.3, 1e-8]) if method == "haar" else
+                              rng.choice([0.25, 0.6, 5.0, 9.0]) if method.startswith("hmm") else 0.01)
+        if rng.random() < (0.45 if not method.startswith("hmm") else 0.15):
+            i["variants"] = _variants(rng, rows)
+        if rng.random() < 0.1:
+            i["reuse"] = True  # the table object has been segmented before
+        cases.append({"op": "segment", "tag": method + ("+v" if i.get("variants") else ""), "in": i})
     # n//6 extra cases (one in seven) go through `cnvkit.py segment` (a separate random stream: the API cases above are unchanged)
     crng = random.Random()
     crng.setstate(rng.getstate())
@@ -137,11 +223,67 @@ def classify_hmm_zero_variance(case, impl, resp):
             and impl.get("__error__") == "ZeroDivisionError" and "NormalDistribution" in impl.get("tb", ""))
 
 
-def _cna(rows):
+def _eff_bins(i):
+    """the bins as the code sees them: a table without a `depth` column gets depth = 2**log2 in transfer_fields (and
+    drop_low_coverage then tests log2 only -- 2**log2 is never 0)"""
+    if i.get("cols") != "nodepth":
+        return i["bins"]
+    import numpy as np
+    return [r[:6] + [float(np.exp2(np.float64(r[4])))] for r in i["bins"]]
+
+
+def _cna(rows, i=None):
+    """the CopyNumArray of a case; `i` (the case input) selects the representation"""
+    import random as _random
+    import numpy as np
+    import pandas as pd
     from cnvlib.cnary import CopyNumArray as CNA
-    return CNA.from_rows([tuple(r) for r in rows],
-                         columns=["chromosome", "start", "end", "gene", "log2", "weight", "depth"],
-                         meta_dict={"sample_id": "S"})
+    i = i or {}
+    names = ["chromosome", "start", "end", "gene", "log2", "weight", "depth"]
+    order = {"api": names, "fix": ["chromosome", "start", "end", "gene", "depth", "log2", "weight"],
+             "nodepth": names[:6]}[i.get("cols", "api")]
+    rng = _random.Random(len(rows) * 7919 + (rows[0][1] if rows else 0))
+    recs, mask = [tuple(r) for r in rows], [True] * len(rows)
+    if i.get("index") == "holes" and rows:
+        # the table as a filtered subset of a larger one: junk rows interleaved, then removed with a boolean mask
+        recs, mask = [], []
+        for r in rows:
+            for _ in range(rng.choice([0, 0, 1, 1, 2, 3])):
+                j = rng.choice(rows)
+                recs.append((j[0], j[1], j[2], "junk", 3.3, 0.77, 9.0))
+                mask.append(False)
+            recs.append(tuple(r))
+            mask.append(True)
+        if all(mask):
+            recs.insert(0, (rows[0][0], rows[0][1], rows[0][2], "junk", 3.3, 0.77, 9.0))
+            mask.insert(0, False)
+    df = pd.DataFrame.from_records(recs, columns=names)
+    if i.get("extra") == "gc":
+        df["gc"] = [round(rng.uniform(0.2, 0.8), 3) for _ in recs]
+    elif i.get("extra") == "baf":
+        df["baf"] = [round(rng.uniform(0.3, 0.7), 3) for _ in recs]
+    df = df[order + [c for c in df.columns if c not in names]]
+    if i.get("index") == "perm":
+        lab = list(range(len(df)))
+        rng.shuffle(lab)
+        df.index = lab  # unique labels in no order (a table sorted with sort_values outside cnvkit)
+    elif i.get("index") == "offset":
+        df.index = range(1000, 1000 + len(df))
+    arr = CNA(df, {"sample_id": "S"})
+    if not all(mask):
+        arr = arr[np.array(mask)]
+    return arr
+
+
+def _vary(i):
+    import pandas as pd
+    from cnvlib.vary import VariantArray as VA
+    v = i.get("variants")
+    if not v:
+        return None
+    df = pd.DataFrame({"chromosome": [x[0] for x in v], "start": [x[1] for x in v], "end": [x[1] + 1 for x in v],
+                       "ref": "A", "alt": "G", "zygosity": 0.5, "alt_freq": [x[2] for x in v]})
+    return VA(df, {"sample_id": "S"})
 
 
 def _seg_rows(seg):
@@ -243,9 +385,24 @@ def _segment_api(i, cna):
     import numpy as np
     from cnvlib import segmentation
     np.random.seed(12345)
-    extra = {"threshold": i["threshold"]} if i.get("threshold") is not None else {}
-    return segmentation.do_segmentation(cna.copy(), i["method"], skip_low=i["skip_low"], skip_outliers=i["skip_outliers"],
-                                        min_weight=i["min_weight"], processes=i["processes"], **extra)
+    thr = i.get("threshold")
+    work = cna.copy()
+    if i.get("reuse"):
+        segmentation.do_segmentation(work, "none" if i["method"] != "none" else "haar", skip_low=not i["skip_low"])
+    call = i.get("call", "kw")
+    if call == "pos":
+        return segmentation.do_segmentation(work, i["method"], None, thr, _vary(i), i["skip_low"], i["skip_outliers"],
+                                            i["min_weight"], False, "Rscript", i["processes"])
+    kw = {"skip_low": i["skip_low"], "skip_outliers": i["skip_outliers"], "min_weight": i["min_weight"],
+          "processes": i["processes"]}
+    if call == "implicit":
+        kw = {k: v for k, v in kw.items() if v != {"skip_low": False, "skip_outliers": 10, "min_weight": 0,
+                                                   "processes": 1}[k]}
+    if thr is not None:
+        kw["threshold"] = thr
+    if i.get("variants"):
+        kw["variants"] = _vary(i)
+    return segmentation.do_segmentation(work, i["method"], **kw)
 
 
 def _same_segs(a, b):
@@ -271,11 +428,14 @@ def run_impl(case):
         # (threshold, processes) must not change anything else either
         cli_same = _same_segs(segs, _seg_rows(_segment_api(i, _cna(i["bins"]))))
     else:
-        cna = _cna(i["bins"])
+        cna = _cna(i["bins"], i)
         segs = _seg_rows(_segment_api(i, cna))
     # units and masks, replicating the order of the filters with the real filter functions
     units_src = [ca for _c, ca in cna.by_arm()] if per_arm else [cna]
     units, keeps = [], []
+    where = {lab: k for k, lab in enumerate(cna.data.index)}  # pandas label -> row position in the case's bins
+    if len(where) != len(i["bins"]):
+        raise AssertionError("harness: the table built for the case does not have one uniquely labelled row per bin")
     for ca in units_src:
         labels = list(ca.data.index)
         f1 = ca.drop_low_coverage(verbose=False) if i["skip_low"] else ca
@@ -286,7 +446,7 @@ def run_impl(case):
             low = (f2["weight"] == 0).fillna(True)
         f3 = f2[~low] if len(low) and low.sum() else f2
         s1, s2, s3 = set(f1.data.index), set(f2.data.index), set(f3.data.index)
-        units.append([[labels[k], (labels[k] in s1) and (labels[k] not in s2)] for k in range(len(labels))])
+        units.append([[where[labels[k]], (labels[k] in s1) and (labels[k] not in s2)] for k in range(len(labels))])
         keeps.append([labels[k] in s3 for k in range(len(labels))])
     arms_all = [len(ca) for _c, ca in cna.by_arm()]
     res = {"segs": segs, "units": units, "keeps": keeps, "arms": arms_all}
@@ -331,9 +491,9 @@ def to_line(case, impl):
     base = {"per_arm": per_arm, "check_log2": method == "none" or method.startswith("hmm"),
             "skip_low": i["skip_low"], "min_weight": frac(i["min_weight"])}
     if isinstance(impl, dict) and "__error__" in impl:
-        rows = [[r[0], r[1], r[2], r[3], frac(r[4]), frac(r[5]), frac(r[6]), False] for r in i["bins"]]
+        rows = [[r[0], r[1], r[2], r[3], frac(r[4]), frac(r[5]), frac(r[6]), False] for r in _eff_bins(i)]
         return {"op": "segment", "in": dict(base, units=[rows], runs=[[]])}
-    bins = i["bins"]
+    bins = _eff_bins(i)
     units_bins, units_json = [], []
     for u in impl["units"]:
         ub = [bins[lab] for lab, _o in u]
